@@ -1,11 +1,9 @@
-import CandidModel.De
+import CandidModel.Proofs.DeNeutral
 /-
   C07 — Decoding quotas bound the work and never change the result.
-  `De.*` mirrors de.rs with its cost accounting.  This file: the accounting primitive.
-  (The lock-step simulation "two runs that differ only in their quotas agree until one hits a quota
-  error", from which neutrality, monotonicity and cost independence follow for whole messages, is stated in
-  DESIGN.md and is work in progress; on whole messages these are established by the correspondence and by
-  metamorphic oracles on the implementation.)
+  `De.*` mirrors de.rs with its cost accounting.  This file: the accounting primitive, and neutrality for
+  whole messages — a simulation between a metered run and the unmetered run over the four mutually recursive
+  entry points, option back-tracking (which restores everything but the quotas), skipping and the argument loop.
 -/
 namespace Candid.Props.C07
 open Candid Candid.De
@@ -142,5 +140,30 @@ theorem addCost_typed_charges_decoding_only (st : St) (c n : Nat) (hu : st.untyp
   have hs : chargeS { st with dq := some (n - c) } c = some { st with dq := some (n - c) } := by
     unfold chargeS; simp [hu]
   simp [addCost, hd, hs]
+
+/-- **Quotas never change the result**: whenever decoding a message under any decoding / skipping quota returns
+values, decoding the same bytes at the same expected types without quotas returns exactly the same values —
+for every byte string, environment, expected types and quota configuration. -/
+theorem quotas_never_change_the_result (bs : Bytes) (env : Env) (expected : List Ty) (cfg : Config)
+    (vs : List Val) (st : St) (h : decodeWithConfig bs env expected cfg = .ok vs st) :
+    ∃ st', decodeWithConfig bs env expected ⟨none, none⟩ = .ok vs st' :=
+  decode_quota_neutral bs env expected cfg vs st h
+
+/-- the same for every entry point at every depth: from equal states (quotas aside) the unmetered run reproduces
+the value of the metered one, and a subtype failure stays a subtype failure (what option back-tracking sees) -/
+theorem entry_points_quota_neutral (env : Env) (fuel : Nat) :
+    (∀ vis w e, Neutral (deAny env vis fuel w e)) ∧ (∀ w, Neutral (deIgnored env fuel w)) ∧
+    (∀ vis w e, Neutral (recoverable env vis fuel w e)) :=
+  ⟨(de_sim env fuel).1, (de_sim env fuel).2.1, (de_sim env fuel).2.2.1⟩
+
+/-- two different quota configurations that both succeed give the same values -/
+theorem two_quota_configurations_agree (bs : Bytes) (env : Env) (expected : List Ty) (c1 c2 : Config)
+    (v1 v2 : List Val) (s1 s2 : St) (h1 : decodeWithConfig bs env expected c1 = .ok v1 s1)
+    (h2 : decodeWithConfig bs env expected c2 = .ok v2 s2) : v1 = v2 := by
+  obtain ⟨a, ha⟩ := decode_quota_neutral bs env expected c1 v1 s1 h1
+  obtain ⟨b, hb⟩ := decode_quota_neutral bs env expected c2 v2 s2 h2
+  rw [ha] at hb
+  simp only [R.ok.injEq] at hb
+  exact hb.1
 
 end Candid.Props.C07
